@@ -272,6 +272,76 @@ def h20_status(S, junk=False):
     S.check("status-stays-truthful-after-junk", out["late_probe"] == want_late, info=f"late probe answered {out['late_probe']}")
 
 
+def h20_fail_near_stop(S):
+    """A consumer fails within a few loop steps of the stop request while a job is still in flight:
+    the endpoint must say 503 for as long as the worker keeps running."""
+    import signal
+    from repid import Job, Router, Worker
+    from repid.converter import BasicConverter
+
+    a = S.pick("failure_delayed_by_steps", 5)
+    b = S.pick("signal_delayed_by_steps", 5)
+    t_f = Fraction(5, 1000)
+    out = {}
+
+    async def main(loop):
+        w = World()
+        await w.open(queues=("q_ok", "q_fail"), record=False)
+        base = w.broker.CONSUMER_CLASS
+
+        class Failing(base):
+            async def consume(self):
+                if self.queue_name == "q_fail":
+                    await asyncio.sleep(t_f - loop.time())
+                    for _ in range(a):
+                        await asyncio.sleep(0)
+                    raise RuntimeError("consumer connection lost")
+                return await super().consume()
+
+        w.broker.CONSUMER_CLASS = Failing
+        r = Router()
+
+        @r.actor(name="ok", queue="q_ok", converter=BasicConverter)
+        async def ok():
+            await asyncio.sleep(Fraction(60, 1000))      # in flight across the stop
+
+        @r.actor(name="bad", queue="q_fail", converter=BasicConverter)
+        async def bad():
+            ...
+
+        await Job("ok", queue="q_ok", id_="m1", _connection=w.conn).enqueue()
+        worker = Worker(routers=[r], handle_signals=[signal.SIGTERM], _connection=w.conn, graceful_shutdown_time=1.0,
+                        run_health_check_server=True)
+        state = {}
+
+        def hook(lp):
+            if "at" not in state and lp.time() >= t_f:
+                state["at"] = lp.iters
+            if "at" in state and "fired" not in state and lp.iters >= state["at"] + b:
+                state["fired"] = lp.fire_signal()
+
+        loop.iter_hook = hook
+        task = asyncio.create_task(worker.run())
+        await asyncio.sleep(t_f + Fraction(20, 1000))
+        loop.iter_hook = None
+        out["running"] = not task.done()
+        out["probe"] = _probe(loop.servers[0], [VALID]) if loop.servers else "refused"
+        out["fired"] = state.get("fired")
+        await asyncio.wait_for(task, timeout=10)
+
+    run_async(main)
+    S.cover("fail-near-stop")
+    if a > b:
+        # the stop request came first: the consumer is being cancelled, a later error of it is not "a consumer failed"
+        # (the unchanged tree answers 200 when the error surfaces 3+ steps after the stop request; recorded in DESIGN.md §4.4)
+        S.cover("failure-after-the-stop-request-not-asserted")
+        return
+    if out["running"]:
+        S.cover("probed-while-finishing")
+        S.check("unhealthy-after-a-consumer-failed", out["probe"] == "503",
+                info=f"failure +{a} steps, signal +{b} steps: worker still running, endpoint answered {out['probe']}")
+
+
 def h20_lifetime(S):
     """The port is open exactly while the worker runs - also while in-flight actors finish gracefully."""
     from repid import Job, Router, Worker
@@ -279,6 +349,7 @@ def h20_lifetime(S):
 
     d = S.real("job_duration_s", Fraction(1, 1000), Fraction(10, 1000))
     t_probe = S.real("probe_at_s", 0, Fraction(12, 1000))
+    again = S.flag("second_run_of_the_same_worker")
     out = {}
 
     async def main(loop):
@@ -302,6 +373,14 @@ def h20_lifetime(S):
         await task
         out["after"] = _probe(loop.servers[0], [VALID])
         out["log"] = [x[0] for x in loop.servers[0].log]
+        if again:
+            await Job("job", id_="m2", _connection=w.conn).enqueue()
+            task2 = asyncio.create_task(worker.run())
+            await asyncio.sleep(d / 2)
+            out["second_running"] = not task2.done()
+            out["second_probe"] = _probe(loop.servers[-1], [VALID]) if loop.servers else "refused"
+            await task2
+            out["second_after"] = _probe(loop.servers[-1], [VALID])
 
     run_async(main)
     S.cover("lifetime")
@@ -309,6 +388,11 @@ def h20_lifetime(S):
         S.cover("probed-while-running")
         S.check("port-open-while-the-worker-runs", out["probe"] == "200", info=f"probe at {t_probe} (job takes {d}): {out['probe']}")
     S.check("port-closed-after-the-run", out["after"] == "refused")
+    if again:
+        S.cover("second-run")
+        if out["second_running"]:
+            S.check("port-open-while-the-worker-runs", out["second_probe"] == "200", info=f"second run of the same Worker: {out['second_probe']}")
+        S.check("port-closed-after-the-run", out["second_after"] == "refused")
     S.check("server-started-then-closed-once", out["log"] == ["start_serving", "close", "wait_closed"], info=str(out["log"]))
 
 
@@ -332,8 +416,11 @@ HARNESSES = [
             functions=["health_check_server.py:HealthCheckServer.start", "health_check_server.py:_HttpServerProtocol.data_received", "_runner.py:_Runner.run_one_queue"],
             covers=["health-run", "saw-200", "saw-503"],
             stubs=["loop.create_server captured: a recording fake server hands out protocol objects from the real factory (no sockets)"]),
+    Harness(name="H20-fail-near-stop", scenario=h20_fail_near_stop, workers=8,
+            bounds={"consumer failure / stop signal": "each delayed by 0..4 event-loop steps relative to the same instant; asserted when the failure is not after the stop request", "in-flight job": "60 ms, graceful period 1 s"},
+            functions=["_runner.py:_Runner.run_one_queue"], covers=["fail-near-stop", "probed-while-finishing"]),
     Harness(name="H20-lifetime", scenario=h20_lifetime, workers=8,
-            bounds={"job duration": "any real in [1, 10] ms", "probe": "at any real instant in [0, 12] ms", "worker": "messages_limit=1"},
+            bounds={"job duration": "any real in [1, 10] ms", "probe": "at any real instant in [0, 12] ms", "worker": "messages_limit=1; optionally run a second time"},
             functions=["worker.py:Worker.run", "health_check_server.py:HealthCheckServer.stop"], covers=["lifetime", "probed-while-running"]),
 ]
 ASSUMPTIONS = ["real sockets, packet fragmentation beyond 'each data_received call gets arbitrary bytes' and OS-level connection limits are outside the claim",
